@@ -94,6 +94,9 @@ func leafAlphabet(k int) []Leaf {
 	single(J{"type": "string"}, strKw, "string")
 	single(J{"type": "integer"}, numKw(false), "integer")
 	single(J{"type": "integer", "format": "int32"}, numKw(false)[:6], "integer/int32")
+	single(J{"type": "integer", "format": "uint32"}, numKw(false)[5:9], "integer/uint32")
+	single(J{"type": "integer", "format": "uint64"}, numKw(false)[1:4], "integer/uint64")
+	single(J{"type": "integer", "format": "int64"}, numKw(false)[6:10], "integer/int64")
 	single(J{"type": "number"}, numKw(true), "number")
 	single(J{"type": "number", "format": "float"}, numKw(true)[2:7], "number/float")
 	add("boolean:enum", J{"type": "boolean", "enum": A{true}})
@@ -179,6 +182,16 @@ func schemaContexts() []SchemaCtx {
 			return J{"type": "object", "properties": J{"p": J{"$ref": "#/definitions/" + b.addAux(in)}}}
 		}},
 		{"ref", func(in J, b *defBuilder) J { return J{"$ref": "#/definitions/" + b.addAux(in)} }},
+		{"ref2prop", func(in J, b *defBuilder) J { // property -> $ref -> $ref -> inner
+			a2 := b.addAux(in)
+			a1 := b.addAux(J{"$ref": "#/definitions/" + a2})
+			return J{"type": "object", "required": A{"p"}, "properties": J{"p": J{"$ref": "#/definitions/" + a1}}}
+		}},
+		{"ref2objprop", func(in J, b *defBuilder) J { // property -> $ref -> $ref -> object{required p: inner}
+			a2 := b.addAux(J{"type": "object", "required": A{"p"}, "properties": J{"p": in}})
+			a1 := b.addAux(J{"$ref": "#/definitions/" + a2})
+			return J{"type": "object", "properties": J{"o": J{"$ref": "#/definitions/" + a1}}}
+		}},
 		{"reqprop+readOnly", func(in J, b *defBuilder) J {
 			return J{"type": "object", "required": A{"p"}, "properties": J{"p": merge(in, J{"readOnly": true})}}
 		}},
